@@ -81,6 +81,7 @@ macro_rules
       | apply NP_none
       | (apply NP_some; first | rfl | (apply linkAtoms_name'; assumption))
       | apply NP_bind_guard
+      | (apply NP_map; intro _ _; rfl)
       | (apply NP_bind; intro _ _)
       | split)
 
